@@ -39,6 +39,16 @@ def plan(tier, seed):
 
 
 def rand_value(rng, fmt):
+    if fmt[-1] in "sp" or fmt == "c":
+        n = 1 if fmt == "c" else int(fmt[:-1])
+        if fmt[-1] == "p":
+            n = rng.randint(0, n - 1)       # length byte + at most n-1
+        v = bytes(rng.getrandbits(8) for _ in range(n))
+        if n and rng.random() < 0.5:
+            # ends in zero bytes that belong to the value
+            z = rng.randint(1, n)
+            v = v[:n - z] + bytes(z)
+        return v
     if len(fmt) > 1 and fmt.endswith("x") and len(fmt.rstrip("x")) == 1:
         return rand_value(rng, fmt.rstrip("x"))   # one value, then padding
     if fmt == "x":
@@ -59,6 +69,8 @@ def rand_value(rng, fmt):
 
 
 def same(fmt, a, b):
+    if fmt[-1] in "sp" or fmt == "c":
+        return type(a) is type(b) and a == b
     if len(fmt) > 1 and fmt.endswith("x") and len(fmt.rstrip("x")) == 1:
         return type(a) is type(b) and a == b
     if fmt == "x":
